@@ -79,12 +79,26 @@ def run(ctx):
     from opticomlib.devices import PRBS
     rnd = random.Random(ctx.seed)
 
+    kept = []            # (sequence object as returned, its bits as first read): re-read later - results must not change when further calls are made
+    raw_state = {}       # int value of a returned state -> the object PRBS returned (passed back as it is when the stream is resumed)
+    ncall = [0]
+
     def call(order, length, seed, timeout=60):
+        ncall[0] += 1
+        if isinstance(seed, int) and seed in raw_state and ncall[0] % 2:
+            seed = raw_state[seed]                     # resume with the very object that was returned (a numpy integer in this library)
+        elif isinstance(seed, int) and ncall[0] % 7 == 3 and abs(seed) < 2 ** 62:
+            seed = np.int64(seed)                      # seeds held in numpy integers
         with warnings.catch_warnings(record=True) as w:
             warnings.simplefilter("always")
             with deadline(timeout):
                 out, st = PRBS(order, length, seed, True)
-        return [int(b) for b in out.data], int(st), any(issubclass(x.category, UserWarning) for x in w)
+        bits_ = [int(b) for b in out.data]
+        if len(kept) < 400 and len(bits_) <= 4096:
+            kept.append((out, bits_))
+        if len(raw_state) < 5000:
+            raw_state[int(st)] = st
+        return bits_, int(st), any(issubclass(x.category, UserWarning) for x in w)
 
     events, meta = [], []
 
@@ -204,6 +218,11 @@ def run(ctx):
                 add({"kind": "verdict", "order": int(order) if order == int(order) else 1000 + int(order * 10), "lenKind": "none" if lv is None else "int",
                      "lenSign": 0 if lv is None else 1, "raised": raised}, ("verdict", order, "none" if lv is None else "int", lv))
                 ctx.case(("verdict-degenerate-order", order, lv is None, sd is None), None, nontrivial=False)
+    # sequences handed out earlier still hold the bits they held when they were returned
+    for obj_, bits_ in kept:
+        if [int(b) for b in obj_.data] != bits_:
+            ctx.violation("call:result-changed-by-later-calls", "a sequence returned by PRBS changed after further PRBS calls were made", {"bits_then": bits_[:64], "bits_now": [int(b) for b in obj_.data][:64]})
+            break
     # ------------------------------------------------------------------ 3. TLC validates the recorded events
     bad = []
     B = 60000
